@@ -201,6 +201,32 @@ def record_traces(n_examples, seed):
         traces.append({'vals': abst, 'cmps': cmps})
         concrete.append([repr(x) for x in batch])
     go()
+    # deterministic batches of numbers that are CLOSE but not equal across representations (Python compares int, float,
+    # Decimal and bool exactly): pairs below float resolution, beyond float range, around 2**53 and 2**63
+    from decimal import Decimal
+    near = [
+        [Decimal('0.1'), 0.1, Decimal('0.1000000000000000055511151231257827'), 0, Decimal('0.10000000000000001')],
+        [Decimal(2 ** 53 + 1), float(2 ** 53), 2 ** 53, 2 ** 53 + 1, Decimal(2 ** 53)],
+        [Decimal('1E+400'), float('inf'), 10 ** 400, Decimal('-1E+400'), float('-inf'), -10 ** 400],
+        [True, 1, 1.0, Decimal(1), Decimal('1.0000000000000000001'), 1.0000000000000002],
+        [2 ** 63, float(2 ** 63), 2 ** 63 + 1, Decimal(2 ** 63) + Decimal('0.5'), 2 ** 63 - 1],
+        [Decimal('1E-400'), 0.0, -0.0, Decimal('-1E-400'), 5e-324, Decimal(0), False],
+        [(Decimal('0.1'), 1), (0.1, 0), [Decimal('0.1'), 2], (0.1,)],
+    ]
+    for batch in near:
+        abst = values.abstract_batch(batch)
+        cmps = []
+        for i, j in itertools.product(range(len(batch)), repeat=2):
+            try:
+                got = _cmp5(batch[i], batch[j])
+            except Exception as e:
+                got = {'lt': False, 'eq': False, 'le': False, 'gt': False, 'ge': False, 'exc': repr(e)}
+            ev = {'a': i + 1, 'b': j + 1}
+            ev.update({k: v for k, v in got.items() if k != 'exc'})
+            ev['raised'] = 'exc' in got
+            cmps.append(ev)
+        traces.append({'vals': abst, 'cmps': cmps})
+        concrete.append([repr(x) for x in batch])
     return traces, concrete
 
 
